@@ -641,11 +641,11 @@ func (c *SpecCtx) call(e *SExpr) *Val {
 		return &Val{T: X.E.IfaceTag(x.T), GT: intT}
 	case "typeis":
 		x := c.eval(e.Args[0])
-		T := c.lookupType(strings.TrimSpace(e.Args[1].Src))
+		T := c.lookupType(exprText(e.Args[1]))
 		return &Val{T: ts.Eq(X.E.IfaceTag(x.T), ts.IntLit(int64(X.E.TypeID(T)))), GT: boolT}
 	case "unbox":
 		x := c.eval(e.Args[0])
-		T := c.lookupType(strings.TrimSpace(e.Args[1].Src))
+		T := c.lookupType(exprText(e.Args[1]))
 		return &Val{T: X.E.Unbox(x.T, T), GT: T}
 	case "box":
 		x := c.eval(e.Args[0])
@@ -872,3 +872,18 @@ func (c *SpecCtx) lockRef(e *SExpr) lockID {
 }
 
 var _ = token.NoPos
+
+// exprText: the text of a type written as an expression (*pkg.T, T)
+func exprText(e *SExpr) string {
+	switch e.Kind {
+	case "ident":
+		return e.Name
+	case "paren":
+		return exprText(e.Args[0])
+	case "unary":
+		return e.Op + exprText(e.Args[0])
+	case "sel":
+		return exprText(e.Args[0]) + "." + e.Name
+	}
+	return strings.TrimSpace(e.Src)
+}
